@@ -197,3 +197,74 @@ def try_fold( e, env=None, default=None ):
         return fold( e, env )
     except NoFold:
         return default
+
+
+# ---------------------------------------------------------------- decision fragments: a block of statements over a finite abstract domain
+
+class Outcome:
+    """how the evaluation of a decision fragment ended: kind in 'fall' / 'raise' / 'return' / 'yield' / 'continue' / 'break'"""
+    def __init__( self, kind, value=None, node=None ):
+        self.kind, self.value, self.node = kind, value, node
+    def __repr__( self ):
+        return '%s%s' % ( self.kind, '' if self.value is None else '( %r )' % ( self.value, ))
+
+
+def run_block( stmts, env, ignore_calls=(), stop_at_yield=True ):
+    """Evaluate a decision fragment ( assignments to locals and to subscripts of local containers, if / elif / else, assert, raise, return,
+    yield, expression statements whose call name ends in one of `ignore_calls` ) over the concrete cell `env` ( dict, updated in place ).
+    Everything else raises NoFold: the fragment is then not a decision table the rule understands ( ANALYSIS-ERROR, never a verdict )."""
+    from .core import dotted, call_name
+    for st in stmts:
+        if isinstance( st, ast.Pass ):
+            continue
+        if isinstance( st, ast.Expr ):
+            v = st.value
+            if isinstance( v, ast.Constant ):
+                continue
+            if isinstance( v, ( ast.Yield, )):
+                if stop_at_yield:
+                    return Outcome( 'yield', fold( v.value, env ) if v.value is not None else None, st )
+                continue
+            if isinstance( v, ast.Call ) and any(( call_name( v ) or '' ).split( '.' )[-1] == n or ( call_name( v ) or '' ).startswith( n + '.' ) for n in ignore_calls ):
+                continue
+            raise NoFold( 'statement %s' % ast.dump( v )[:60] )
+        if isinstance( st, ast.Assign ) and len( st.targets ) == 1:
+            val = fold( st.value, env )
+            tg = st.targets[0]
+            if isinstance( tg, ast.Name ):
+                env[tg.id] = val
+            elif isinstance( tg, ast.Subscript ):
+                base = fold( tg.value, env )
+                key = fold( tg.slice, env )
+                if not isinstance( base, ( dict, list )):
+                    raise NoFold( 'store into %r' % type( base ).__name__ )
+                base[key] = val
+            elif isinstance( tg, ( ast.Tuple, ast.List )):
+                local = {}
+                _bind( tg, val, local )
+                env.update( local )
+            else:
+                raise NoFold( 'assignment target' )
+            continue
+        if isinstance( st, ast.If ):
+            out = run_block( st.body if fold( st.test, env ) else st.orelse, env, ignore_calls, stop_at_yield )
+            if out.kind != 'fall':
+                return out
+            continue
+        if isinstance( st, ast.Assert ):
+            if not fold( st.test, env ):
+                return Outcome( 'raise', 'AssertionError', st )
+            continue
+        if isinstance( st, ast.Raise ):
+            name = None
+            if st.exc is not None:
+                name = dotted( st.exc.func if isinstance( st.exc, ast.Call ) else st.exc )
+            return Outcome( 'raise', name or 'raise', st )
+        if isinstance( st, ast.Return ):
+            return Outcome( 'return', fold( st.value, env ) if st.value is not None else None, st )
+        if isinstance( st, ast.Continue ):
+            return Outcome( 'continue', None, st )
+        if isinstance( st, ast.Break ):
+            return Outcome( 'break', None, st )
+        raise NoFold( 'statement kind %s' % type( st ).__name__ )
+    return Outcome( 'fall' )
